@@ -19,6 +19,7 @@ type Image struct {
 	TornLen int
 	Cur     int  // index of the model state before the step in flight
 	InFl    bool // a step (transaction / merge) is in flight: state Cur+1 is allowed too
+	Fresh   bool // the newest data segment holds nothing but records of the step in flight (it was started by it)
 	Note    string
 }
 
@@ -43,6 +44,8 @@ type CrashRec struct {
 	U            *Universe
 	immediate    int
 	stepWrites   int
+	freshSeg     bool // the step in flight has started a new data segment (its first write went to offset 0)
+	freshCont    int
 
 	Torn     bool
 	Power    bool
@@ -71,6 +74,7 @@ func NewCrashRec(c *CaseCtx, root string) *CrashRec {
 func (cr *CrashRec) SetStep(cur int, inflight bool, phase string) {
 	cr.cur, cr.infl = cur, inflight
 	cr.stepWrites = 0
+	cr.freshSeg = false
 	cr.Mon.SetTx(cur, phase)
 }
 
@@ -149,7 +153,7 @@ func (cr *CrashRec) onEvent(ev *FSEvent) (bool, int, error) {
 	}
 	keep := cr.KeepProb >= 1 || cr.Rng.Float64() < cr.KeepProb
 	if keep {
-		base := Image{Kind: "crash", Snap: snap, Ev: *ev, Cur: cr.cur, InFl: cr.infl}
+		base := Image{Kind: "crash", Snap: snap, Ev: *ev, Cur: cr.cur, InFl: cr.infl, Fresh: cr.infl && cr.freshSeg}
 		if !cr.Power {
 			cr.add(base)
 			if cr.Torn && ev.Op == "write" && len(ev.Data) > 1 {
@@ -165,6 +169,9 @@ func (cr *CrashRec) onEvent(ev *FSEvent) (bool, int, error) {
 		} else {
 			cr.powerImages(snap, ev, base)
 		}
+	}
+	if cr.infl && ev.Op == "write" && ev.Off == 0 && strings.HasSuffix(ev.Path, ".dat") {
+		cr.freshSeg = true // images taken from the next event on show a segment that only holds records of this step
 	}
 	if cr.Power && ev.Op == "write" {
 		e := *ev
@@ -339,9 +346,11 @@ func (cr *CrashRec) continueOn(cfg Cfg, u *Universe, db *nutsdb.DB, dir string, 
 	g := &Gen{R: cr.Rng, U: u, Cfg: cfg, KV: true, List: ds, Set: ds, ZSet: ds, TTL: true, MaxOps: 4, BigVals: true, M: run.M}
 	c.Log("continuing on %s", where)
 	c.Stat("images_continued", 1)
-	// stage 1: the shortest possible record first (it lands where the interrupted record began, so bytes of a torn
-	// record stay behind it), then Close and Open at once - before later records overwrite those bytes
-	{
+	// stage 1 (every other continuation): the shortest possible record first (it lands where the interrupted record
+	// began, so bytes of a torn record stay behind it), then Close and Open at once - before later records overwrite
+	// those bytes. The other continuations go straight to stage 2, so that the interrupted segment is also rotated
+	// away exactly as the crash left it.
+	if cr.continued%2 == 0 {
 		k := u.KVKeys[0]
 		for _, kk := range u.KVKeys {
 			if len(kk) < len(k) {
@@ -486,8 +495,18 @@ func (cr *CrashRec) CheckImages(cfg Cfg, u *Universe, mode string, class string)
 		}
 		// use some of the recovered images further: torn images first (the interrupted record is still in the file)
 		nViol := len(cr.C.res.Viol)
-		if cr.continued < cr.ContinueMax && nViol == violBefore && (img.Kind == "torn" && cr.Rng.Intn(2) == 0 || cr.Rng.Intn(12) == 0) {
+		fresh := img.Fresh && cr.freshCont < 4 && nViol == violBefore
+		if fresh || cr.continued < cr.ContinueMax && nViol == violBefore && (img.Kind == "torn" && cr.Rng.Intn(2) == 0 || cr.Rng.Intn(12) == 0) {
 			cr.continued++
+			if fresh {
+				// a segment that holds nothing but records of the interrupted transaction: continue without the short
+				// first record (stage 1), so that the segment is rotated away without a single committed record in it
+				cr.freshCont++
+				if cr.continued%2 == 0 {
+					cr.continued++
+				}
+				cr.C.Stat("images_continued_on_a_segment_of_uncommitted_records_only", 1)
+			}
 			var m *Model
 			if mode == "state" && matched >= 0 && matched < len(cr.Models) {
 				m = cr.Models[matched]
